@@ -51,6 +51,9 @@ def inputs(t, tier):
         for ms in itertools.product(gen.all_masks(n), repeat=3):
             yield (f"mask3/n{n}", gen.rle_block(t, n, list(ms), chans=[1, 0, 9]), {})
     yield ("mem", gen.rle_block(t, 5, [(False, True, False, True, False)]), {"mem": "f8"})
+    for mem in gen.MEM_LAYOUTS:  # the same samples in another memory layout (column-major, big-endian, strided view, read-only)
+        for masks in ([(True, True, True, True)], [(True, False, True, True)], [(True, True, True, True), (False, True, True, False)]):
+            yield ("mem", gen.rle_block(t, 4, masks, chans=[5, 1]), {"mem": mem})
     yield from gen.partial_frames(t)
     if thorough or t != R.T_FORCE3D:
         yield ("big/n70000", gen.rle_block(t, 70000, [gen.big_mask()]), {})
